@@ -31,7 +31,7 @@ func (w *World) sameKey(a, b ssa.Value) bool {
 //
 //	v = *(&base.name)
 func (w *World) isFieldLoadOf(v ssa.Value, base ssa.Value, name string) bool {
-	v = stripIface(v)
+	v = stripIface(under(v))
 	u, ok := v.(*ssa.UnOp)
 	if !ok || u.Op != token.MUL {
 		return false
@@ -48,7 +48,7 @@ func (w *World) isFieldLoadOf(v ssa.Value, base ssa.Value, name string) bool {
 
 // fieldLoad decomposes v = *(&X.f) and returns X and f.
 func fieldLoad(v ssa.Value) (base ssa.Value, field *types.Var, ok bool) {
-	v = stripIface(v)
+	v = stripIface(under(v))
 	u, isU := v.(*ssa.UnOp)
 	if !isU || u.Op != token.MUL {
 		// struct value field
